@@ -30,7 +30,8 @@ fn decode(data: &[u8]) -> arbitrary::Result<Case> {
         a.truncate(41 - d.len() + 1);
     }
     let tol = 10f64.powi(-(u.int_in_range(8i32..=14)?));
-    Ok(Case { complex, kind, a, d, tol })
+    let dtol_exp = [0i8, 0, 0, 3, -3][u.int_in_range(0usize..=4)?];
+    Ok(Case { complex, kind, a, d, tol, dtol_exp })
 }
 
 fuzz_target!(|data: &[u8]| {
